@@ -265,6 +265,32 @@ REFACTORS = [
 		return enode.LogDist(allNodes[i].ID(), target) < enode.LogDist(allNodes[j].ID(), target)
 	})
 """)]),
+ ("r22-content-keys-if-chain", ["C01", "C09"], [("portalwire/portal_protocol.go",
+   """	case TransientOfferRequestWithResultKind:
+		content := request.Request.(*TransientOfferRequestWithResult).Content
+		return [][]byte{content.ContentKey}
+	default:
+		return request.Request.(*PersistOfferRequest).ContentKeys
+	}
+}
+""",
+   """	}
+	if request.Kind == TransientOfferRequestWithResultKind {
+		content := request.Request.(*TransientOfferRequestWithResult).Content
+		return [][]byte{content.ContentKey}
+	}
+	return request.Request.(*PersistOfferRequest).ContentKeys
+}
+""")]),
+ ("r23-get-defer-close-clone", ["C04", "C17", "C01"], [("storage/pebble/storage.go",
+   """	out := make([]byte, len(data))
+	copy(out, data)
+	closer.Close()
+	return out, nil
+""",
+   """	defer closer.Close()
+	return bytes.Clone(data), nil
+""")]),
 ]
 
 MUTANTS = [
@@ -542,5 +568,51 @@ MUTANTS = [
 	sort.Slice(allNodes, func(i, j int) bool {
 		return enode.LogDist(allNodes[i].ID(), enode.ID(contentId)) < enode.LogDist(allNodes[j].ID(), enode.ID(contentId))
 	})
+""")]),
+ ("m-C01-kind-payload-mismatch", "C01", [("portalwire/api.go",
+   """		Kind:    TransientOfferRequestWithResultKind,
+		Request: transientOfferRequestWithResult,
+""",
+   """		Kind:    TransientOfferRequestKind,
+		Request: transientOfferRequestWithResult,
+""")]),
+ ("m-C04-append-onto-source", "C04", [("storage/pebble/storage.go",
+   """	out := make([]byte, len(data))
+	copy(out, data)
+	closer.Close()
+	return out, nil
+""",
+   """	defer closer.Close()
+	return append(data[:0], data...), nil
+""")]),
+ ("m-C08-empty-content-as-miss", "C08", [("portalwire/portal_protocol.go",
+   """	if errors.Is(err, ErrContentNotFound) {
+		closestNodes := p.findNodesCloseToContent(contentId, portalFindnodesResultLimit)
+""",
+   """	if errors.Is(err, ErrContentNotFound) || len(content) == 0 {
+		closestNodes := p.findNodesCloseToContent(contentId, portalFindnodesResultLimit)
+""")]),
+ ("m-C06-admission-outside-lock", "C06", [("storage/pebble/storage.go",
+   """	c.mu.Lock()
+	defer c.mu.Unlock()
+	distance := xor(contentId, c.nodeId[:])
+	valid, err := c.inRadius(distance)
+	if err != nil {
+		return err
+	}
+	if !valid {
+		return storage.ErrInsufficientRadius
+	}
+""",
+   """	distance := xor(contentId, c.nodeId[:])
+	valid, err := c.inRadius(distance)
+	if err != nil {
+		return err
+	}
+	if !valid {
+		return storage.ErrInsufficientRadius
+	}
+	c.mu.Lock()
+	defer c.mu.Unlock()
 """)]),
 ]
